@@ -47,7 +47,7 @@ type Required interface{ RequiredCounters(tier string) []string }
 
 var registry = map[string]Prop{}
 
-func Register(p Prop) { registry[p.ID()] = p }
+func Register(p Prop)    { registry[p.ID()] = p }
 func Get(id string) Prop { return registry[id] }
 func IDs() []string {
 	var ids []string
